@@ -171,6 +171,18 @@ static int ref_splitfull(uint8_t *o, uint64_t v) { return ref_split_encode(&REF_
 static int ref_splitnz(uint8_t *o, uint64_t v) { return ref_split_encode(&REF_SPLITNZ, o, v); }
 static int ref_split16(uint8_t *o, uint64_t v) { return ref_split_encode(&REF_SPLIT16, o, v); }
 
+/* reference tagged-varint reader (format: see ref_scalar.h) */
+static int ref_tagged_read(const uint8_t *p, uint64_t *v) {
+    if (p[0] <= 240) { *v = p[0]; return 1; }
+    if (p[0] <= 248) { *v = 240 + 256 * (uint64_t)(p[0] - 241) + p[1]; return 2; }
+    if (p[0] == 249) { *v = 2288 + 256 * (uint64_t)p[1] + p[2]; return 3; }
+    int nb = p[0] - 247;
+    uint64_t x = 0;
+    for (int i = 0; i < nb; i++) x = (x << 8) | p[1 + i];
+    *v = x;
+    return 1 + nb;
+}
+
 /* zig-zag: 0,-1,1,-2,2,... -> 0,1,2,3,4 */
 static inline uint64_t ref_zigzag(int64_t n) {
     return n >= 0 ? 2 * (uint64_t)n : 2 * (uint64_t)(-(n + 1)) + 1;
